@@ -153,4 +153,424 @@ Section Specs.
     splits; auto; [reflexivity|apply frame_push; apply sext_refl|]. exact (denotes_neg _ _ _ _ _ HF).
   Qed.
 
+
+  Lemma existsb_map' {A B} (f : B -> bool) (g : A -> B) l : existsb f (map g l) = existsb (fun x => f (g x)) l.
+  Proof. induction l as [|a l IH]; cbn; [reflexivity|now rewrite IH]. Qed.
+  Lemma forallb_map' {A B} (f : B -> bool) (g : A -> B) l : forallb f (map g l) = forallb (fun x => f (g x)) l.
+  Proof. induction l as [|a l IH]; cbn; [reflexivity|now rewrite IH]. Qed.
+
+  (* n-ary folds: conjunction / disjunction of all items, true / false for the empty list *)
+  Theorem many_step_spec mr disj l rl (Fs : list bfun) fuel mr' x :
+    reachable mr -> fetch_all (snd mr) l = Some rl -> Forall2 (fun r F => denotes mr r F) rl Fs ->
+    mstep fuel mr (HMany disj l) = Some (mr', x) ->
+    exists r, x = OReg r /\ newreg mr mr' r /\ frame mr mr' /\
+      denotes mr' r (fun e => if disj then existsb (fun F => F e) Fs else forallb (fun F => F e) Fs).
+  Proof.
+    intros HR Fl HF Hs. destruct mr as [m rs]. open_step HR Hs m rs HI HC. rewrite Fl in Hs.
+    assert (Htts : exists tts, Forall2 (fun x t => @V sops (core m) x t) rl tts /\
+                     forall e, map (fun xt => rsem (fst xt) (snd xt) e) (combine rl tts) = map (fun F => F e) Fs).
+    { clear -HF. induction HF as [|r F rl Fs (t & Vt & St) _ (tts & H1 & H2)]; [exists []; split; [constructor|reflexivity]|].
+      exists (t :: tts). split; [constructor; auto|]. intro e. cbn. now rewrite St, H2. }
+    destruct Htts as (tts & Htts & Hmap).
+    apply (push_spec m rs _ mr' x (fun s' r => exists t, @V sops s' r t /\ forall e, rsem r t e = if disj then existsb (fun F => F e) Fs else forallb (fun F => F e) Fs)) in Hs; [exact Hs|].
+    intros s' r E. destruct disj.
+    - destruct (@or_many_ok sops sok fuel rl tts (core m) zero Leaf s' r HI HC (@V_zero sops (core m)) Htts E) as (_ & _ & Ex & tr & Vr & Sr).
+      split; [exact Ex|]. exists tr. split; [exact Vr|]. intro e. rewrite Sr. cbn [rsem zero neg tsem xorb orb].
+      rewrite <- (existsb_map' (fun b : bool => b) (fun xt => rsem (fst xt) (snd xt) e)), Hmap, existsb_map'. reflexivity.
+    - destruct (@and_many_ok sops sok fuel rl tts (core m) one Leaf s' r HI HC (@V_one sops (core m)) Htts E) as (_ & _ & Ex & tr & Vr & Sr).
+      split; [exact Ex|]. exists tr. split; [exact Vr|]. intro e. rewrite Sr. cbn [rsem one neg tsem xorb andb].
+      rewrite <- (forallb_map' (fun b : bool => b) (fun xt => rsem (fst xt) (snd xt) e)), Hmap, forallb_map'. reflexivity.
+  Qed.
+
+  (* expressions: the meaning of an expression tree over register arguments *)
+  Fixpoint xsem (A : rarg -> bfun) (x : xexpr) (e : env) : bool :=
+    match x with
+    | XTerm a => A a e
+    | XNot a | XNeg a => negb (xsem A a e)
+    | XAnd a b => xsem A a e && xsem A b e
+    | XOr a b => xsem A a e || xsem A b e
+    | XXor a b => xorb (xsem A a e) (xsem A b e)
+    end.
+  Lemma eval_enot fuel s ex : @eval sops fuel s (enot ex) = match @eval sops fuel s ex with Some (s1, r) => Some (s1, rneg r) | None => None end.
+  Proof.
+    destruct ex as [t|i|a b|a b|a b]; cbn [enot eval]; try reflexivity.
+    destruct (eval fuel s i) as [[s1 r]|]; [|reflexivity]. now rewrite rneg_invol.
+  Qed.
+  Lemma eval_xsem fuel (A : rarg -> bfun) rs : forall x ex s s' r, Inv s -> CInv s ->
+    (forall a r0, fetch rs a = Some r0 -> exists t, @V sops s r0 t /\ forall e, rsem r0 t e = A a e) ->
+    xlate rs x = Some ex -> @eval sops fuel s ex = Some (s', r) ->
+    Inv s' /\ CInv s' /\ sext s s' /\ exists tr, @V sops s' r tr /\ forall e, rsem r tr e = xsem A x e.
+  Proof.
+    assert (Hext : forall s s', sext s s' ->
+      (forall a r0, fetch rs a = Some r0 -> exists t, @V sops s r0 t /\ forall e, rsem r0 t e = A a e) ->
+      (forall a r0, fetch rs a = Some r0 -> exists t, @V sops s' r0 t /\ forall e, rsem r0 t e = A a e)).
+    { intros s s' E H a r0 Fa. destruct (H a r0 Fa) as (t & Vt & St). exists t. split; [eapply V_ext; eauto|exact St]. }
+    induction x as [a|a IH|a IH|a IHa b IHb|a IHa b IHb|a IHa b IHb]; intros ex s s' r HI HC HA Hx He; cbn [xlate] in Hx.
+    - destruct (fetch rs a) as [r0|] eqn:Fa; [|discriminate]. injection Hx as <-. cbn [eval] in He. injection He as <- <-.
+      destruct (HA _ _ Fa) as (t & Vt & St). splits; auto using sext_refl. exists t. auto.
+    - destruct (xlate rs a) as [ea|] eqn:Xa; [|discriminate]. injection Hx as <-. cbn [eval] in He.
+      destruct (eval fuel s ea) as [[s1 r1]|] eqn:Ea; [|discriminate]. injection He as <- <-.
+      destruct (IH _ _ _ _ HI HC HA eq_refl Ea) as (? & ? & ? & tr & Vr & Sr). splits; auto. exists tr. split; [now apply V_neg|].
+      intro e. cbn [xsem]. rewrite <- Sr. apply rsem_neg.
+    - destruct (xlate rs a) as [ea|] eqn:Xa; [|discriminate]. injection Hx as <-. rewrite eval_enot in He.
+      destruct (eval fuel s ea) as [[s1 r1]|] eqn:Ea; [|discriminate]. injection He as <- <-.
+      destruct (IH _ _ _ _ HI HC HA eq_refl Ea) as (? & ? & ? & tr & Vr & Sr). splits; auto. exists tr. split; [now apply V_neg|].
+      intro e. cbn [xsem]. rewrite <- Sr. apply rsem_neg.
+    - destruct (xlate rs a) as [ea|] eqn:Xa; [|discriminate]. destruct (xlate rs b) as [eb|] eqn:Xb; [|discriminate]. injection Hx as <-. cbn [eval] in He.
+      destruct (eval fuel s ea) as [[s1 ra]|] eqn:Ea; [|discriminate]. destruct (eval fuel s1 eb) as [[s2 rb]|] eqn:Eb; [|discriminate].
+      destruct (IHa _ _ _ _ HI HC HA eq_refl Ea) as (HI1 & HC1 & E1 & ta & Va & Sa).
+      destruct (IHb _ _ _ _ HI1 HC1 (Hext _ _ E1 HA) eq_refl Eb) as (HI2 & HC2 & E2 & tb & Vb & Sb).
+      destruct (and_ok _ _ _ _ _ _ _ _ HI2 HC2 (V_ext _ _ _ _ E2 Va) Vb He) as (HI3 & HC3 & E3 & tr & Vr & Sr).
+      splits; eauto using sext_trans. exists tr. split; auto. intro e. cbn [xsem]. now rewrite Sr, Sa, Sb.
+    - destruct (xlate rs a) as [ea|] eqn:Xa; [|discriminate]. destruct (xlate rs b) as [eb|] eqn:Xb; [|discriminate]. injection Hx as <-. cbn [eval] in He.
+      destruct (eval fuel s ea) as [[s1 ra]|] eqn:Ea; [|discriminate]. destruct (eval fuel s1 eb) as [[s2 rb]|] eqn:Eb; [|discriminate].
+      destruct (IHa _ _ _ _ HI HC HA eq_refl Ea) as (HI1 & HC1 & E1 & ta & Va & Sa).
+      destruct (IHb _ _ _ _ HI1 HC1 (Hext _ _ E1 HA) eq_refl Eb) as (HI2 & HC2 & E2 & tb & Vb & Sb).
+      destruct (or_ok _ _ _ _ _ _ _ _ HI2 HC2 (V_ext _ _ _ _ E2 Va) Vb He) as (HI3 & HC3 & E3 & tr & Vr & Sr).
+      splits; eauto using sext_trans. exists tr. split; auto. intro e. cbn [xsem]. now rewrite Sr, Sa, Sb.
+    - destruct (xlate rs a) as [ea|] eqn:Xa; [|discriminate]. destruct (xlate rs b) as [eb|] eqn:Xb; [|discriminate]. injection Hx as <-. cbn [eval] in He.
+      destruct (eval fuel s ea) as [[s1 ra]|] eqn:Ea; [|discriminate]. destruct (eval fuel s1 eb) as [[s2 rb]|] eqn:Eb; [|discriminate].
+      destruct (IHa _ _ _ _ HI HC HA eq_refl Ea) as (HI1 & HC1 & E1 & ta & Va & Sa).
+      destruct (IHb _ _ _ _ HI1 HC1 (Hext _ _ E1 HA) eq_refl Eb) as (HI2 & HC2 & E2 & tb & Vb & Sb).
+      destruct (xor_ok _ _ _ _ _ _ _ _ HI2 HC2 (V_ext _ _ _ _ E2 Va) Vb He) as (HI3 & HC3 & E3 & tr & Vr & Sr).
+      splits; eauto using sext_trans. exists tr. split; auto. intro e. cbn [xsem]. now rewrite Sr, Sa, Sb.
+  Qed.
+
+  (* evaluating an expression tree whose terms are live handles: A gives the meaning of each register argument *)
+  Theorem expr_step_spec mr xe ex (A : rarg -> bfun) fuel mr' x :
+    reachable mr -> xlate (snd mr) xe = Some ex ->
+    (forall a r0, liveh mr a r0 -> denotes mr r0 (A a)) ->
+    mstep fuel mr (HExpr xe) = Some (mr', x) ->
+    exists r, x = OReg r /\ newreg mr mr' r /\ frame mr mr' /\ denotes mr' r (xsem A xe).
+  Proof.
+    intros HR Hx HA Hs. destruct mr as [m rs]. open_step HR Hs m rs HI HC. rewrite Hx in Hs.
+    apply (push_spec m rs _ mr' x (fun s' r => exists t, @V sops s' r t /\ forall e, rsem r t e = xsem A xe e)) in Hs; [exact Hs|].
+    intros s' r E. destruct (eval_xsem fuel A rs xe ex (core m) s' r HI HC HA Hx E) as (_ & _ & Ex & tr & Vr & Sr). eauto.
+  Qed.
+
+
+  (* ---------------- C08: cofactors and substitution ---------------- *)
+  Theorem subst_step_spec mr f rf F v b fuel mr' x :
+    reachable mr -> liveh mr f rf -> denotes mr rf F -> 0 < v ->
+    mstep fuel mr (HSubst f v b) = Some (mr', x) ->
+    exists r, x = OReg r /\ newreg mr mr' r /\ frame mr mr' /\ denotes mr' r (fun e => F (upd e v b)).
+  Proof.
+    intros HR Lf (tf & Vf & Sf) Hv Hs. destruct mr as [m rs]. open_step HR Hs m rs HI HC. rewrite Lf in Hs.
+    destruct (N.ltb_spec 0 v) as [_|]; [|lia].
+    apply (push_spec m rs _ mr' x (fun s' r => exists t, @V sops s' r t /\ forall e, rsem r t e = F (upd e v b))) in Hs; [exact Hs|].
+    intros s' r E. unfold drop2 in E. match type of E with match ?X with _ => _ end = _ => destruct X as [[[s1 m1] r1]|] eqn:E1; [|discriminate] end. injection E as <- <-.
+    destruct (substitute_ok _ _ _ _ _ _ _ _ _ HI Vf E1) as (_ & Ex & tr & Vr & Sr & _). split; [exact Ex|]. exists tr. split; auto. intro e. now rewrite Sr, Sf.
+  Qed.
+
+  Theorem substm_step_spec mr f rf F vals fuel mr' x :
+    reachable mr -> liveh mr f rf -> denotes mr rf F -> nodupb (map fst vals) = true ->
+    mstep fuel mr (HSubstM f vals) = Some (mr', x) ->
+    exists r, x = OReg r /\ newreg mr mr' r /\ frame mr mr' /\ denotes mr' r (fun e => F (override e vals)).
+  Proof.
+    intros HR Lf (tf & Vf & Sf) Hd Hs. destruct mr as [m rs]. open_step HR Hs m rs HI HC. rewrite Lf, Hd in Hs.
+    apply (push_spec m rs _ mr' x (fun s' r => exists t, @V sops s' r t /\ forall e, rsem r t e = F (override e vals))) in Hs; [exact Hs|].
+    intros s' r E. unfold drop2 in E. match type of E with match ?X with _ => _ end = _ => destruct X as [[[s1 m1] r1]|] eqn:E1; [|discriminate] end. injection E as <- <-.
+    destruct (smulti_ok vals _ _ _ _ _ _ _ _ HI (fun k r Hk => ltac:(rewrite mget_empty in Hk; discriminate)) Vf E1) as (_ & Ex & _ & _ & tr & Vr & Sr & _).
+    split; [exact Ex|]. exists tr. split; auto. intro e. now rewrite Sr, Sf.
+  Qed.
+
+  Theorem cofcube_step_spec mr f rf F cube fuel mr' x :
+    reachable mr -> liveh mr f rf -> denotes mr rf F -> asc_cubeb 0 cube = true ->
+    mstep fuel mr (HCofCube f cube) = Some (mr', x) ->
+    exists r, x = OReg r /\ newreg mr mr' r /\ frame mr mr' /\ denotes mr' r (fun e => F (override e cube)).
+  Proof.
+    intros HR Lf (tf & Vf & Sf) Hd Hs. destruct mr as [m rs]. open_step HR Hs m rs HI HC. rewrite Lf, Hd in Hs.
+    apply (push_spec m rs _ mr' x (fun s' r => exists t, @V sops s' r t /\ forall e, rsem r t e = F (override e cube))) in Hs; [exact Hs|].
+    intros s' r E. unfold drop2 in E. match type of E with match ?X with _ => _ end = _ => destruct X as [[[s1 m1] r1]|] eqn:E1; [|discriminate] end. injection E as <- <-.
+    destruct (ccube_ok cube _ _ _ _ _ _ _ _ _ 0 HI (fun k r Hk => ltac:(rewrite mget_empty in Hk; discriminate)) Vf
+                (ex_intro _ [] eq_refl) (asc_cubeb_ok _ _ Hd) E1) as (_ & Ex & _ & _ & tr & Vr & Sr & _).
+    split; [exact Ex|]. exists tr. split; auto. intro e. now rewrite Sr, Sf.
+  Qed.
+
+  (* the accessors: cofactors with respect to the top variable, complement bit included *)
+  Theorem lowhigh_step_spec mr (hi : bool) f rf F fuel mr' x :
+    reachable mr -> liveh mr f rf -> denotes mr rf F -> idx rf <> 1 ->
+    mstep fuel mr (if hi then HHigh f else HLow f) = Some (mr', x) ->
+    exists r, x = OReg r /\ newreg mr mr' r /\ frame mr mr' /\ store mr' = store mr /\
+      let v := @top sops (store mr) rf in 0 < v /\ denotes mr' r (fun e => F (upd e v hi)).
+  Proof.
+    intros HR Lf (tf & Vf & Sf) Hn Hs. destruct mr as [m rs]. open_step HR Hs m rs HI HC.
+    destruct (top_cases _ _ _ HI Vf) as [(-> & _ & Hi)|(v0 & ln & tl & th & -> & Ht & _)]; [contradiction|].
+    destruct (lh_ok _ _ _ _ _ _ HI Vf) as (Vl & Vh & Al & Ah & Hv & Htop & Ssh).
+    assert (Hcof : forall b e, rsem rf (Nd v0 ln tl th) (upd e v0 b) = if b then rsem (high_node (core m) rf) th e else rsem (low_node (core m) rf) tl e).
+    { intros b e. rewrite Ssh, upd_eq. destruct b; [apply (rsem_indep _ _ v0 v0 Ah); lia|apply (rsem_indep _ _ v0 v0 Al); lia]. }
+    destruct hi; cbn [step] in Hs; unfold step in Hs; rewrite Lf in Hs; destruct (N.eqb_spec (idx rf) 1) as [|_]; try contradiction; injection Hs as <- <-.
+    - exists (@high_node sops (core m) rf). split; [reflexivity|]. split; [reflexivity|]. split; [apply frame_push; apply sext_refl|]. split; [reflexivity|].
+      cbn zeta. assert (Ht2 : @top sops (core m) rf = v0) by exact Htop. rewrite !Ht2. split; [exact Hv|]. exists th. split; [exact Vh|]. intro e. rewrite <- Sf. now rewrite (Hcof true).
+    - exists (@low_node sops (core m) rf). split; [reflexivity|]. split; [reflexivity|]. split; [apply frame_push; apply sext_refl|]. split; [reflexivity|].
+      cbn zeta. assert (Ht2 : @top sops (core m) rf = v0) by exact Htop. rewrite !Ht2. split; [exact Hv|]. exists tl. split; [exact Vl|]. intro e. rewrite <- Sf. now rewrite (Hcof false).
+  Qed.
+
+  (* ---------------- C09: compose ---------------- *)
+  Theorem compose_step_spec mr f g rf rg F G v fuel mr' x :
+    reachable mr -> liveh mr f rf -> liveh mr g rg -> denotes mr rf F -> denotes mr rg G ->
+    mstep fuel mr (HCompose f v g) = Some (mr', x) ->
+    exists r, x = OReg r /\ newreg mr mr' r /\ frame mr mr' /\ denotes mr' r (fun e => F (upd e v (G e))).
+  Proof.
+    intros HR Lf Lg (tf & Vf & Sf) (tg & Vg & Sg) Hs. destruct mr as [m rs]. open_step HR Hs m rs HI HC. rewrite Lf, Lg in Hs.
+    apply (push_spec m rs _ mr' x (fun s' r => exists t, @V sops s' r t /\ forall e, rsem r t e = F (upd e v (G e)))) in Hs; [exact Hs|].
+    intros s' r E. unfold drop2 in E. match type of E with match ?X with _ => _ end = _ => destruct X as [[[s1 m1] r1]|] eqn:E1; [|discriminate] end. injection E as <- <-.
+    destruct (compose_ok v _ _ _ _ _ _ _ _ _ _ HI HC (fun k r Hk => ltac:(rewrite mget_empty in Hk; discriminate)) Vf Vg E1) as (_ & _ & Ex & _ & tr & Vr & Sr & _).
+    split; [exact Ex|]. exists tr. split; auto. intro e. now rewrite Sr, Sf, Sg.
+  Qed.
+
+  (* ---------------- C10 / C11: constrain and restrict against their executable specifications ---------------- *)
+  (* r denotes F through a diagram all of whose variables are listed in vs *)
+  Definition denotes_in (mr : mstate * regs) (vs : list N) (r : ref) (F : bfun) : Prop :=
+    exists t, @V sops (store mr) r t /\ tvars_in vs t /\ forall e, rsem r t e = F e.
+  Definition upto (n : nat) : list N := map N.of_nat (List.seq 1 n).
+  Lemma upto_in n w : In w (upto n) <-> 1 <= w <= N.of_nat n.
+  Proof.
+    unfold upto. rewrite in_map_iff. split.
+    - intros (k & <- & Hk). apply in_seq in Hk. lia.
+    - intros Hw. exists (N.to_nat w). split; [lia|]. apply in_seq. lia.
+  Qed.
+  Lemma upto_asc n : asc 0 (upto n).
+  Proof.
+    unfold upto. assert (H : forall k lb, lb < N.of_nat k -> asc lb (map N.of_nat (List.seq k n))).
+    { induction n as [|n IH]; intros k lb Hlb; cbn; [exact I|]. split; [exact Hlb|]. apply IH. lia. }
+    apply H. lia.
+  Qed.
+  Lemma cover_tree t : above 0 t -> ordered t -> exists n, tvars_in (upto n) t.
+  Proof.
+    induction t as [|v ln l IHl h IHh]; intros Ha Ho; [exists O; exact I|].
+    cbn in Ha, Ho. destruct Ho as (Al & Ah & Ol & Oh).
+    destruct Ha as (Hv0 & Hl0 & Hh0).
+    destruct (IHl Hl0 Ol) as (n1 & H1). destruct (IHh Hh0 Oh) as (n2 & H2).
+    exists (Nat.max (N.to_nat v) (Nat.max n1 n2)). cbn [tvars_in]. splits.
+    - apply upto_in. lia.
+    - eapply tvars_in_sub; [exact H1|]. intros w Hw. apply upto_in in Hw. apply upto_in. lia.
+    - eapply tvars_in_sub; [exact H2|]. intros w Hw. apply upto_in in Hw. apply upto_in. lia.
+  Qed.
+  (* non-vacuity of the covering hypothesis: every denotation is a denotation within 1..n for some n *)
+  Lemma denotes_cover mr r F : denotes mr r F -> exists n, denotes_in mr (upto n) r F.
+  Proof. intros (t & Vt & St). destruct (cover_tree t) as (n & Hn); [apply Vt|apply Vt|]. exists n, t. auto. Qed.
+  Lemma denotes_in_sub mr vs vs' r F : denotes_in mr vs r F -> (forall w, In w vs -> In w vs') -> denotes_in mr vs' r F.
+  Proof. intros (t & Vt & Tt & St) Hs. exists t. splits; auto. eapply tvars_in_sub; eauto. Qed.
+
+  (* the meaning of a valid handle, as a function: rsem r t for its (unique) tree t *)
+  Theorem constrain_step_spec mr f g rf rg F G vs fuel mr' x :
+    reachable mr -> liveh mr f rf -> liveh mr g rg -> denotes_in mr vs rf F -> denotes_in mr vs rg G -> asc 0 vs ->
+    mstep fuel mr (HConstrain f g) = Some (mr', x) ->
+    exists r, x = OReg r /\ newreg mr mr' r /\ frame mr mr' /\
+      exists tf tg tr, @V sops (store mr) rf tf /\ @V sops (store mr) rg tg /\ @V sops (store mr') r tr /\
+        (forall e, rsem r tr e = constrain_spec vs (rsem rf tf) (rsem rg tg) e).
+  Proof.
+    intros HR Lf Lg (tf & Vf & Tf & Sf) (tg & Vg & Tg & Sg) Hasc Hs. destruct mr as [m rs]. open_step HR Hs m rs HI HC. rewrite Lf, Lg in Hs.
+    apply (push_spec m rs _ mr' x (fun s' r => exists tf tg tr, @V sops (core m) rf tf /\ @V sops (core m) rg tg /\ @V sops s' r tr /\
+        (forall e, rsem r tr e = constrain_spec vs (rsem rf tf) (rsem rg tg) e))) in Hs; [exact Hs|].
+    intros s' r E. destruct (constrain_ok _ _ _ _ _ _ _ _ HI HC E Vf Vg) as (_ & _ & Ex & tr & Vr & _ & Sr).
+    split; [exact Ex|]. exists tf, tg, tr. splits; auto.
+  Qed.
+
+  Theorem restrict_step_spec mr f g rf rg F G vs fuel mr' x :
+    reachable mr -> liveh mr f rf -> liveh mr g rg -> denotes_in mr vs rf F -> denotes_in mr vs rg G -> asc 0 vs ->
+    mstep fuel mr (HRestrict f g) = Some (mr', x) ->
+    exists r, x = OReg r /\ newreg mr mr' r /\ frame mr mr' /\
+      exists tf tg tr, @V sops (store mr) rf tf /\ @V sops (store mr) rg tg /\ @V sops (store mr') r tr /\
+        (forall e, rsem r tr e = restrict_spec vs (rsem rf tf) (rsem rg tg) e) /\
+        (forall ws, tvars_in ws tf -> tvars_in ws tr).
+  Proof.
+    intros HR Lf Lg (tf & Vf & Tf & Sf) (tg & Vg & Tg & Sg) Hasc Hs. destruct mr as [m rs]. open_step HR Hs m rs HI HC. rewrite Lf, Lg in Hs.
+    apply (push_spec m rs _ mr' x (fun s' r => exists tf tg tr, @V sops (core m) rf tf /\ @V sops (core m) rg tg /\ @V sops s' r tr /\
+        (forall e, rsem r tr e = restrict_spec vs (rsem rf tf) (rsem rg tg) e) /\ (forall ws, tvars_in ws tf -> tvars_in ws tr))) in Hs; [exact Hs|].
+    intros s' r E. destruct (restrict_ok _ _ _ _ _ _ _ _ HI HC E Vf Vg) as (_ & _ & Ex & tr & Vr & _ & Wr & Sr).
+    split; [exact Ex|]. exists tf, tg, tr. splits; auto.
+  Qed.
+
+
+  (* destruct the innermost option-valued scrutinee of hypothesis H (found by shape, not by name: the implicit store
+     instance in the unfolded step is convertible but not syntactically equal to the one of this section) *)
+  Tactic Notation "destr" hyp(H) "as" simple_intropattern(pat) "eqn" ident(E) :=
+    match type of H with
+    | match (match ?X with _ => _ end) with _ => _ end = _ => destruct X as pat eqn:E; [|discriminate H]
+    | match ?X with _ => _ end = _ => destruct X as pat eqn:E; [|discriminate H]
+    end.
+
+  (* ---------------- queries: they return the right value and change nothing (C12, C13, C14, C16) ---------------- *)
+  Definition is_query (o : hop) : bool :=
+    match o with
+    | HItec _ _ _ | HImplies _ _ | HDesc _ | HSatCount _ _ | HOneSat _ | HPaths _ | HBracket _ | HDot _ => true
+    | _ => false
+    end.
+  (* every query other than `size` leaves the whole manager state (store, both caches, registers) untouched *)
+  Theorem query_pure mr o fuel mr' x : is_query o = true -> mstep fuel mr o = Some (mr', x) -> mr' = mr.
+  Proof.
+    intros Hq Hs. destruct mr as [m rs]. unfold Reachable.mstep, step in Hs.
+    destruct o; try discriminate Hq;
+      repeat match type of Hs with
+             | match ?X with _ => _ end = Some _ => destruct X; try discriminate
+             end; try (injection Hs as <- <-; reflexivity).
+  Qed.
+  (* `size` may only add an entry to the size cache: the node store and the registers are untouched *)
+  Theorem size_pure mr f fuel mr' x : mstep fuel mr (HSize f) = Some (mr', x) -> store mr' = store mr /\ snd mr' = snd mr.
+  Proof.
+    intros Hs. destruct mr as [m rs]. unfold Reachable.mstep, step in Hs. destruct (fetch rs f) as [a|]; [|injection Hs as <- <-; auto].
+    destruct (size_op nhash khash fuel m a) as [[m' n]|] eqn:Sz; [|discriminate]. injection Hs as <- <-.
+    unfold size_op in Sz. destruct (sc_get (szc m) a); [injection Sz as <- <-; auto|].
+    match type of Sz with match ?X with _ => _ end = _ => destruct X; [|discriminate] end. injection Sz as <- <-. auto.
+  Qed.
+
+  Theorem itec_step_spec mr f g h rf rg rh F G H fuel mr' x :
+    reachable mr -> liveh mr f rf -> liveh mr g rg -> liveh mr h rh ->
+    denotes mr rf F -> denotes mr rg G -> denotes mr rh H ->
+    mstep fuel mr (HItec f g h) = Some (mr', x) ->
+    mr' = mr /\ exists o, x = OOptBool o /\ is_const (fun e => if F e then G e else H e) o.
+  Proof.
+    intros HR Lf Lg Lh (tf & Vf & Sf) (tg & Vg & Sg) (th & Vh & Sh) Hs. split; [eapply query_pure; eauto; reflexivity|].
+    destruct mr as [m rs]. open_step HR Hs m rs HI HC. rewrite Lf, Lg, Lh in Hs.
+    destr Hs as [o|] eqn E. injection Hs as <- <-. exists o. split; [reflexivity|].
+    eapply is_const_congr; [|exact (itec_ok _ _ _ _ _ _ _ _ _ HI HC E Vf Vg Vh)]. intro e. cbn. now rewrite Sf, Sg, Sh.
+  Qed.
+
+  Theorem implies_step_spec mr f g rf rg F G fuel mr' x :
+    reachable mr -> liveh mr f rf -> liveh mr g rg -> denotes mr rf F -> denotes mr rg G ->
+    mstep fuel mr (HImplies f g) = Some (mr', x) ->
+    mr' = mr /\ exists b, x = OBool b /\ (b = true <-> forall e, F e = true -> G e = true).
+  Proof.
+    intros HR Lf Lg (tf & Vf & Sf) (tg & Vg & Sg) Hs. split; [eapply query_pure; eauto; reflexivity|].
+    destruct mr as [m rs]. open_step HR Hs m rs HI HC. rewrite Lf, Lg in Hs.
+    destr Hs as [b|] eqn E. injection Hs as <- <-. exists b. split; [reflexivity|].
+    rewrite (is_implies_ok _ _ _ _ _ _ _ HI HC Vf Vg E). split; intros H0 e; [rewrite <- Sf, <- Sg|rewrite Sf, Sg]; apply H0.
+  Qed.
+
+  Lemma count_congr vs F G : (forall e, F e = G e) -> count vs F = count vs G.
+  Proof. intro E. unfold count, CountTk.cnt. now rewrite (filter_ext F G E). Qed.
+
+  Theorem satcount_step_spec mr f rf F n fuel mr' x :
+    reachable mr -> liveh mr f rf -> denotes_in mr (upto n) rf F ->
+    mstep fuel mr (HSatCount f (N.of_nat n)) = Some (mr', x) ->
+    mr' = mr /\ x = ONum (count (upto n) F).
+  Proof.
+    intros HR Lf (tf & Vf & Tf & Sf) Hs. split; [eapply query_pure; eauto; reflexivity|].
+    destruct mr as [m rs]. open_step HR Hs m rs HI HC. rewrite Lf in Hs.
+    destr Hs as [c|] eqn E. injection Hs as <- <-.
+    rewrite (sat_count_ok _ _ _ _ _ _ HI Vf Tf E). f_equal. apply count_congr. exact Sf.
+  Qed.
+
+  Lemma tone_in_tpaths : forall t n pre p, tone n t pre = Some p -> In p (tpaths n t pre).
+  Proof.
+    induction t as [|v ln l IHl h IHh]; intros n pre p H; cbn [tone tpaths] in *.
+    - destruct n; [discriminate|]. injection H as <-. left. reflexivity.
+    - apply in_or_app. destruct (tone n h (pre ++ [(v, true)])) as [q|] eqn:E.
+      + injection H as <-. right. apply IHh. exact E.
+      + left. apply IHl. exact H.
+  Qed.
+
+  Theorem onesat_step_spec mr f rf F fuel mr' x :
+    reachable mr -> liveh mr f rf -> denotes mr rf F -> mstep fuel mr (HOneSat f) = Some (mr', x) ->
+    mr' = mr /\ exists o, x = OPath o /\
+      match o with
+      | None => rf = zero /\ forall e, F e = false
+      | Some p => incr 0 p /\ forall e, sat e p = true -> F e = true
+      end.
+  Proof.
+    intros HR Lf (tf & Vf & Sf) Hs. split; [eapply query_pure; eauto; reflexivity|].
+    destruct mr as [m rs]. open_step HR Hs m rs HI HC. rewrite Lf in Hs.
+    destr Hs as [o|] eqn E. injection Hs as <- <-. exists o. split; [reflexivity|].
+    pose proof (one_sat_ok _ _ _ _ _ HI Vf E) as Hok. pose proof (one_sat_tone _ _ _ _ _ _ HI Vf E) as Ht. destruct o as [p|].
+    - split; [|intros e He; rewrite <- Sf; apply Hok; exact He].
+      (* the literal list is one of the diagram's root-to-true paths, all of which are increasing *)
+      symmetry in Ht. apply tone_in_tpaths in Ht.
+      eapply (tpaths_incr tf (neg rf) [] 0 p); try apply Vf; cbn; auto. intros y [].
+    - subst rf. split; [reflexivity|]. intro e. rewrite <- Sf. pose proof (V_term _ zero _ eq_refl Vf) as ->. reflexivity.
+  Qed.
+
+  Theorem paths_step_spec mr f rf F fuel mr' x :
+    reachable mr -> liveh mr f rf -> denotes mr rf F -> mstep fuel mr (HPaths f) = Some (mr', x) ->
+    mr' = mr /\ exists ps, x = OPaths ps /\
+      (forall p, In p ps -> incr 0 p) /\
+      (forall e, length (filter (sat e) ps) = if F e then 1%nat else 0%nat) /\
+      (forall vs e0, NoDup vs -> (forall p, In p ps -> NoDup (map fst p) /\ forall y, In y p -> In (fst y) vs) ->
+         CountTk.cnt vs F e0 = sumn (map (fun p => Nat.pow 2 (length vs - length p)) ps)).
+  Proof.
+    intros HR Lf (tf & Vf & Sf) Hs. split; [eapply query_pure; eauto; reflexivity|].
+    destruct mr as [m rs]. open_step HR Hs m rs HI HC. rewrite Lf in Hs.
+    destr Hs as [ps|] eqn E. injection Hs as <- <-. exists ps. split; [reflexivity|].
+    assert (Hps : ps = tpaths (neg rf) tf []).
+    { assert (Hok : @stack_ok sops (core m) [(rf, [])] [tf]) by (constructor; [exact Vf|constructor]).
+      rewrite (pall_ok _ _ _ _ [tf] _ HI Hok E). cbn [stack_paths fst]. apply app_nil_r. }
+    subst ps. splits.
+    - intros p Hp. eapply (tpaths_incr tf (neg rf) [] 0 p); try apply Vf; cbn; auto. intros y [].
+    - intro e. rewrite (paths_exactly_once _ _ _ e Vf). now rewrite Sf.
+    - intros vs e0 Hnd Hp. rewrite <- (paths_sum _ _ _ vs e0 Vf Hnd Hp). unfold CountTk.cnt. rewrite (filter_ext (rsem rf tf) F Sf). reflexivity.
+  Qed.
+
+  (* size(f): the number of nodes reachable from f (terminal included), whatever the size cache holds *)
+  Theorem size_step_spec mr f rf F fuel mr' x :
+    reachable mr -> liveh mr f rf -> denotes mr rf F -> mstep fuel mr (HSize f) = Some (mr', x) ->
+    store mr' = store mr /\ snd mr' = snd mr /\
+    exists l, NoDup l /\ (forall j, In j l <-> j = 1 \/ Reach (store mr) (idx rf) j) /\ x = ONum (N.of_nat (length l)).
+  Proof.
+    intros HR Lf (tf & Vf & Sf) Hs. destruct (size_pure _ _ _ _ _ Hs) as [E1 E2]. splits; auto.
+    destruct mr as [m rs]. destruct (good_of _ HR) as (HI & HC & HS & _). unfold liveh, store in *; cbn [fst snd] in *.
+    unfold Reachable.mstep, step in Hs. rewrite Lf in Hs.
+    destruct (size_op nhash khash fuel m rf) as [[m' n]|] eqn:Sz; [|discriminate]. injection Hs as <- <-.
+    destruct (size_op_good nhash khash _ _ _ _ _ _ HI HS Vf Sz) as (_ & _ & l & Hnd & Hl & ->). exists l. auto.
+  Qed.
+
+  (* bracket export: reading the token tree back yields the handle's function *)
+  Theorem bracket_step_spec mr f rf F fuel mr' x :
+    reachable mr -> liveh mr f rf -> denotes mr rf F -> mstep fuel mr (HBracket f) = Some (mr', x) ->
+    mr' = mr /\ exists tok, x = OBracket tok /\ exists F' d, interp tok [] = Some (F', d) /\ forall e, F' e = F e.
+  Proof.
+    intros HR Lf (tf & Vf & Sf) Hs. split; [eapply query_pure; eauto; reflexivity|].
+    destruct mr as [m rs]. open_step HR Hs m rs HI HC. rewrite Lf in Hs.
+    destr Hs as [[tok vis]|] eqn E. injection Hs as <- <-. exists tok. split; [reflexivity|].
+    destruct (bracket_faithful _ _ _ _ _ _ HI Vf E) as (F' & d & Hi & HF). exists F', d. split; [exact Hi|]. intro e. now rewrite HF, Sf.
+  Qed.
+
+  (* DOT export, at record level: one root record per root; the cell a reader reconstructs from the records unfolds every
+     root to the same tree as the store does *)
+  Theorem dot_step_spec mr l rl fuel mr' x :
+    reachable mr -> fetch_all (snd mr) l = Some rl -> mstep fuel mr (HDot l) = Some (mr', x) ->
+    mr' = mr /\ exists recs, x = ODot recs /\
+      (forall k r, nth_error rl k = Some r -> In (DRoot k r) recs) /\
+      (forall r t, In r rl -> @V sops (store mr) r t -> RepF (read_cell recs) (idx r) t).
+  Proof.
+    intros HR Fl Hs. split; [eapply query_pure; eauto; reflexivity|].
+    destruct mr as [m rs]. destruct (good_of _ HR) as (HI & HC & _ & Hg). unfold liveh, store in *; cbn [fst snd] in *.
+    unfold Reachable.mstep, step in Hs. rewrite Fl in Hs.
+    destr Hs as [recs|] eqn E. injection Hs as <- <-. exists recs. split; [reflexivity|].
+    assert (Hroots : forall r, In r rl -> okidx (core m) (idx r)).
+    { intros r Hr. destruct (fetch_all_good nhash khash _ _ Hg _ _ Fl r Hr) as (t & Vt). eapply (okidx_of_V nhash khash); eauto. }
+    destruct (dot_faithful _ _ _ _ HI Hroots E) as [H1 H2]. split; [exact H1|]. intros r t Hr Vt. apply H2; [exact Hr|apply Vt].
+  Qed.
+
+  (* ---------------- C05 / C06 / C07: collect_garbage ---------------- *)
+  Theorem gc_step_spec mr roots rl fuel mr' x :
+    reachable mr -> fetch_all (snd mr) roots = Some rl -> mstep fuel mr (HGc roots) = Some (mr', x) ->
+    exists vis, @descendants sops fuel (store mr) rl = Some vis /\
+      (* a register survives iff its node was marked; survivors keep their handle and their tree *)
+      (forall a r, liveh mr' a r -> liveh mr a r /\ (idx r = 1 \/ In (idx r) vis)) /\
+      (forall a r, liveh mr a r -> In (idx r) vis -> liveh mr' a r) /\
+      (forall r t, @V sops (store mr) r t -> idx r = 1 \/ In (idx r) vis -> @V sops (store mr') r t) /\
+      (* exactly the marked nodes remain; nothing new appears; both caches are empty *)
+      real_size (tbl (store mr')) = N.of_nat (length vis) /\
+      (forall i n, ccell (store mr') i = Some n -> ccell (store mr) i = Some n) /\
+      (forall k, cache_get khash (opc (store mr')) k = None) /\
+      (forall r, sc_get (szc (fst mr')) r = None).
+  Proof.
+    intros HR Fl Hs. destruct mr as [m rs]. destruct (good_of _ HR) as (HI & HC & _ & Hg). unfold liveh, store in *; cbn [fst snd] in *.
+    unfold Reachable.mstep, step in Hs. rewrite Fl in Hs.
+    destr Hs as [vis|] eqn Hd. destr Hs as [s1|] eqn Hgc. injection Hs as <- <-. cbn [fst snd core szc].
+    pose proof (fetch_all_good nhash khash _ _ Hg _ _ Fl) as Hroots.
+    destruct (gc_ok nhash khash fuel (core m) rl s1 HI Hroots Hgc) as (_ & _ & Hce & _ & Hsub & Hsurv & Hcnt).
+    exists vis. split; [exact Hd|]. splits; auto.
+    - intros a r Hl. unfold fetch in *. rewrite nth_error_map in Hl.
+      destruct (nth_error rs (fst a)) as [[r0|]|] eqn:En; cbn in Hl; try discriminate.
+      destruct (memN (idx r0) vis) eqn:Hm; [|discriminate]. injection Hl as <-. split; [reflexivity|].
+      right. apply memN_spec in Hm. destruct (snd a); exact Hm.
+    - intros a r Hl Hin. unfold fetch in *. rewrite nth_error_map.
+      destruct (nth_error rs (fst a)) as [[r0|]|] eqn:En; cbn; try discriminate. injection Hl as <-.
+      assert (Hm : memN (idx r0) vis = true) by (apply memN_spec; destruct (snd a); exact Hin). now rewrite Hm.
+    - intros r t Vt Hin. eapply (Hsurv vis Hd); eauto. destruct Hin as [?|Hin]; [auto|right; now apply memN_spec].
+    - intro r. apply sc_get_clear.
+  Qed.
+
 End Specs.
